@@ -82,12 +82,14 @@ type op07 struct {
 	Limit    int
 	FailCall int
 	Faulty   bool // any injected fault configured
+	IsParse  bool
+	HasBoom  bool // the value contains an armed panicking Simplifier
 }
 
 func (o *op07) String() string {
 	var b strings.Builder
 	fmt.Fprintf(&b, "%s.%s", o.Subj, o.Fn)
-	if o.Input != nil {
+	if o.IsParse {
 		in := string(o.Input)
 		if len(in) > 80 {
 			in = in[:60] + "…"
@@ -223,8 +225,8 @@ func drawOptions07(t *rapid.T) ojg.Options {
 	return o
 }
 
-var parseSubjects = []string{"oj.Parser", "oj.Validator", "oj.Tokenizer", "gen.Parser", "sen.Parser", "sen.Tokenizer", "pkg.oj", "pkg.sen"}
-var writeSubjects = []string{"oj.Writer", "sen.Writer", "pkg.oj", "pkg.sen"}
+var parseSubjects = []string{"oj.Parser", "oj.Validator", "oj.Tokenizer", "gen.Parser", "sen.Parser", "sen.Tokenizer", "pkg.oj", "pkg.sen", "pkg.oj", "pkg.sen"}
+var writeSubjects = []string{"oj.Writer", "sen.Writer", "pkg.oj", "pkg.sen", "pkg.oj", "pkg.sen"}
 
 func drawOp07(t *rapid.T, faults bool) *op07 {
 	o := &op07{Conv: -1, PanicAt: -1, FailCall: -1}
@@ -250,13 +252,18 @@ func drawOp07(t *rapid.T, faults bool) *op07 {
 			} else {
 				o.Value = []any{o.Value, &boom{Armed: true, V: 1}, 2}
 				o.ValDesc = "[" + o.ValDesc + ", <panicking Simplifier>, 2]"
+				o.HasBoom = true
 			}
 		}
 		return o
 	}
 	o.Subj = parseSubjects[sim.Intn(t, len(parseSubjects), "psubj")]
+	o.IsParse = true
 	senFam := strings.Contains(o.Subj, "sen")
 	o.Input = drawParseInput(t, senFam)
+	if o.Input == nil {
+		o.Input = []byte{}
+	}
 	reader := sim.Bool(t, "reader")
 	switch o.Subj {
 	case "oj.Validator":
@@ -274,6 +281,11 @@ func drawOp07(t *rapid.T, faults bool) *op07 {
 	default:
 		o.Fn = "Parse"
 		o.Reuse = sim.Intn(t, 4, "reuse") == 3
+		if (o.Subj == "oj.Parser" || o.Subj == "sen.Parser") && sim.Intn(t, 6, "unmarshal") == 5 {
+			o.Fn = "Unmarshal"
+			o.Reuse = false
+			reader = false
+		}
 	}
 	if reader && !strings.HasPrefix(o.Subj, "pkg.") {
 		switch o.Fn {
@@ -290,7 +302,7 @@ func drawOp07(t *rapid.T, faults bool) *op07 {
 	if reader {
 		o.Sched = sim.DrawSchedule(t, len(o.Input), nil)
 	}
-	if !strings.Contains(o.Subj, "Validator") && !strings.Contains(o.Subj, "Tokenizer") {
+	if !strings.Contains(o.Subj, "Validator") && !strings.Contains(o.Subj, "Tokenizer") && o.Fn != "Unmarshal" {
 		o.Mode = sim.Weighted(t, "mode", 4, 2, 1)
 		if o.Subj != "gen.Parser" && sim.Intn(t, 4, "conv?") == 3 {
 			o.Conv = sim.Intn(t, 3, "conv")
@@ -448,6 +460,9 @@ func (o *op07) exec(w *world07) (r *res07) {
 		if rd != nil && rd.FaultHit {
 			r.Aborted = true
 		}
+		if o.HasBoom {
+			r.Aborted = true // the injected Simplifier panic aborted the write, however the API surfaced it
+		}
 		for i := range buf {
 			buf[i] = 0xAA // the caller reuses its buffer: returned values must not alias it
 		}
@@ -465,11 +480,15 @@ func (o *op07) exec(w *world07) (r *res07) {
 	}
 	switch o.Subj {
 	case "oj.Parser", "pkg.oj":
-		if o.Input != nil {
+		if o.IsParse {
 			args, collect := o.parseArgs(false, r)
 			var v any
 			var err error
 			switch {
+			case o.Fn == "Unmarshal":
+				var out any
+				err = w.ojP.Unmarshal(buf, &out)
+				v = out
 			case o.Subj == "oj.Parser" && o.Fn == "Parse":
 				w.ojP.Reuse = o.Reuse
 				v, err = w.ojP.Parse(buf, args...)
@@ -499,11 +518,15 @@ func (o *op07) exec(w *world07) (r *res07) {
 		finishParse(nodeAny(v), err, collect)
 		return
 	case "sen.Parser", "pkg.sen":
-		if o.Input != nil {
+		if o.IsParse {
 			args, collect := o.parseArgs(false, r)
 			var v any
 			var err error
 			switch {
+			case o.Fn == "Unmarshal":
+				var out any
+				err = w.senP.Unmarshal(buf, &out)
+				v = out
 			case o.Subj == "sen.Parser" && o.Fn == "Parse":
 				w.senP.Reuse = o.Reuse
 				v, err = w.senP.Parse(buf, args...)
@@ -649,7 +672,7 @@ func (o *op07) exec(w *world07) (r *res07) {
 // only values whose objects have at most one member give a text that does not depend on Go's
 // map iteration order.
 func (o *op07) orderIndependent() bool {
-	if o.Value == nil && o.ValDesc == "" {
+	if o.IsParse {
 		return true
 	}
 	if strings.HasSuffix(o.Fn, "(opts)") || o.Subj == "oj.Writer" || o.Subj == "sen.Writer" {
